@@ -433,6 +433,7 @@ Fixpoint text_encode_pinned_o (fams : list MetricFamily) : outcome :=
    name and a type other than UNTYPED *)
 Definition text_accepts (mf : MetricFamily) : bool :=
   check_metric_family mf && negb (mtype_eqb (mf_type mf) UNTYPED).
+Definition text_decision (fams : list MetricFamily) : outcome := if forallb text_accepts fams then OutOk else OutErr EMsg.
 
 (* ====================================================================================== *)
 (* 10. The protobuf encoder (encoder/pb.rs)                                                   *)
